@@ -13,6 +13,7 @@ structure St where
   armed : Bool := false                 -- the harness parks the next `sourceSplitter.Checkpoint()`
   held : Option Call := none            -- the call that is inside `Checkpoint()`: it holds `stateMu`
   queue : List Call := []               -- calls issued meanwhile: blocked on `stateMu`, run after it in order
+  maxHanded : Nat := 0                  -- history: the highest id handed out so far in this storage, across restarts
 
 def natList (s : String) : List Nat :=
   if s == "-" then [] else (s.splitOn ",").map natOr
@@ -38,17 +39,35 @@ def showRes : Res → String
 def applyAll (s : Publish.Sys) (as : List Publish.Act) : Publish.Sys :=
   as.foldl (fun s a => match Publish.step s a with | some (s', _) => s' | none => s) s
 
-/-- a store call; a finished snapshot is published to the end at once (ungated storage) -/
-def call (st : St) (c : Call) : St × String :=
+/-- one store call (a finished snapshot is published to the end at once: ungated storage): the new state, what the code (as modelled) answers and what the property demands.
+The two differ only in the situation of D55: the call starts a checkpoint and the id it hands out was already
+handed out before a restart (it had not been persisted when the job process was lost). -/
+def call2 (st : St) (c : Call) : St × String × String :=
+  let tagId (st : St) (r : Res) : St × String × String :=
+    match r.created with
+    | [n] =>
+      let st' := { st with maxHanded := max st.maxHanded n }
+      if n ≤ st.maxHanded then
+        (st', showRes r, showRes (match r with | .spCreated _ => .spCreated (st.maxHanded + 1) | _ => .id (st.maxHanded + 1)))
+      else (st', showRes r, showRes r)
+    | _ => (st, showRes r, showRes r)
   match Publish.step st.sys (.call c) with
-  | some (s1, [.res r]) => ({ st with sys := s1 }, showRes r)
+  | some (s1, [.res r]) => tagId { st with sys := s1 } r
   | some (s1, [.res r, .finished snap]) =>
     let s2 := applyAll s1 [.write snap.id, .lock snap.id]
     let s3 := applyAll s2 (s2.pub.removes.map Publish.Act.remove)
+    let out := s!"{showRes r} pub {descOf snap}"
     ({ st with sys := s3, descs := (snap.id, descOf snap) :: st.descs,
                savepoints := if snap.isSavepoint && snap.opEntries.isEmpty then snap.id :: st.savepoints else st.savepoints },
-     s!"{showRes r} pub {descOf snap}")
-  | _ => (st, "model-error")
+     out, out)
+  | _ => (st, "model-error", "model-error")
+
+def tagged (model spec : String) : String :=
+  if model == spec then model else s!"{model} #spec {spec} #kf D55"
+
+def call (st : St) (c : Call) : St × String :=
+  let (st', m, sp) := call2 st c
+  (st', tagged m sp)
 
 /-- a store call issued by the harness: while another call is parked inside `Checkpoint()` it blocks on the
 store mutex (`Facts.c12CallsAtomic`, `Facts.c12FinishHoldsLock`) and runs after it -/
@@ -64,11 +83,11 @@ def release (st : St) : St × String :=
   match st.held with
   | none => (st, "released -")
   | some c =>
-    let (st1, r0) := call { st with held := none, queue := [] } c
-    let (st2, rs) := st.queue.foldl (fun (acc : St × List String) q =>
-      let (s', r) := call acc.1 q
-      (s', acc.2 ++ [r])) (st1, [r0])
-    (st2, "released " ++ joinWith " ; " rs)
+    let (st1, m0, s0) := call2 { st with held := none, queue := [] } c
+    let (st2, ms, ss) := st.queue.foldl (fun (acc : St × List String × List String) q =>
+      let (s', m, sp) := call2 acc.1 q
+      (s', acc.2.1 ++ [m], acc.2.2 ++ [sp])) (st1, [m0], [s0])
+    (st2, tagged ("released " ++ joinWith " ; " ms) ("released " ++ joinWith " ; " ss))
 
 def step (st : St) : List String → St × String
   | ["create", ops, srs] => issue st (.create (natList ops) (natList srs))
@@ -86,7 +105,10 @@ def step (st : St) : List String → St × String
     else if (natOr k) ∈ st.savepoints then
       let files := if mode == "fresh" then [] else st.sys.pub.files
       let written := if mode == "fresh" then [] else st.sys.pub.written
-      ({ st with sys := Publish.bootSavepoint (natOr k) files written st.sys.pub.delivered, armed := false },
+      -- a fresh storage location starts a new lineage from the savepoint; in the job's own storage the ids
+      -- handed out so far stay taken
+      ({ st with sys := Publish.bootSavepoint (natOr k) files written st.sys.pub.delivered, armed := false,
+                 maxHanded := if mode == "fresh" then natOr k else st.maxHanded },
        s!"loaded {natOr k}")
     else (st, "nosavepoint")
   | ["current"] =>
